@@ -281,6 +281,9 @@ func (vc *VC) execAlloc(fr *Frame, x *ssa.Alloc, st *State) {
 	d := &PtrDesc{Root: rObj, Ref: ref, RootT: t, T: t}
 	vc.storeDesc(st, d, vc.zeroVal(t))
 	fr.vals[x] = Val{T: x.Type(), L: []string{ref}}
+	if n, ok := isOpaqueNamed(t); ok && n == "bytes.Buffer" {
+		vc.setGhost(st, "wpos", ref, sBV64, bvLit(64, 0)) // an empty buffer
+	}
 }
 
 func (vc *VC) execUnOp(fr *Frame, x *ssa.UnOp, st *State) {
